@@ -300,11 +300,22 @@ class ACSE:
 
         return isinstance(primitive, abort_classes[abort_type])
 
-    def is_release_requested(self) -> bool:
-        """Return ``True`` if an A-RELEASE request has been received."""
+    def is_release_requested(self, consume: bool = True) -> bool:
+        """Return ``True`` if an A-RELEASE request has been received.
+
+        Parameters
+        ----------
+        consume : bool, optional
+            If ``True`` (default) then the A-RELEASE request primitive is taken
+            off the DUL's queue, and the caller must respond to it. If ``False``
+            then the primitive is left on the queue so the association's reactor
+            can still respond to it.
+        """
         primitive = self.dul.peek_next_pdu()
         if isinstance(primitive, A_RELEASE) and primitive.result is None:
-            _ = self.dul.receive_pdu(wait=False)
+            if consume:
+                _ = self.dul.receive_pdu(wait=False)
+
             return True
 
         return False
